@@ -122,9 +122,17 @@ def edit_tree(rng, t):
                 k = rng.choice(KEYS)
                 if k not in [x[0] for x in items]:
                     items.insert(rng.randrange(len(items) + 1), (k, gen_tree(rng, 2)))
+            elif op < 0.58 and items:
+                # a key RENAMED (the Hash keeps its size): preferably one holding null - "absent" and "present but null"
+                # are different data - and the new key holds the old value, null or something new
+                nulls = [j for j, it in enumerate(items) if it[1] == ("s", "null")]
+                i = rng.choice(nulls) if nulls and rng.random() < 0.7 else rng.randrange(len(items))
+                k = rng.choice(KEYS)
+                if k not in [x[0] for x in items]:
+                    items[i] = (k, rng.choice([items[i][1], ("s", "null"), gen_tree(rng, 2, "scalar")]))
             elif op < 0.7 and items:
                 i = rng.randrange(len(items))
-                items[i] = (items[i][0], gen_tree(rng, 2))
+                items[i] = (items[i][0], gen_tree(rng, 2) if rng.random() < 0.8 else ("s", "null"))
             elif op < 0.85 and len(items) > 1:
                 rng.shuffle(items)
             else:
